@@ -164,6 +164,11 @@ func c11RdbCorruption(t *rapid.T) {
 		violation(t, "C11", "intact-rejected", "intact RDB (%d keys) -> %d entries, err %v: % x", sf.keys, n, err, sf.bytes)
 		return
 	}
+	// the same intact file through a reader that hands out its last bytes together with io.EOF
+	if entries, err, res := loadAll(&gen.ChunkReader{Data: sf.bytes, Sizes: sizes, EOFWithData: true}); err != nil || !res.Completed || len(entries) != sf.keys {
+		violation(t, "C11", "intact-rejected:eof-with-data", "intact RDB (%d keys) read through a source that returns its last bytes together with io.EOF -> %d entries, err %v %v", sf.keys, len(entries), err, res)
+		return
+	}
 	tried := 0
 	for _, sp := range sf.data {
 		for pos := sp[0]; pos < sp[1]; pos++ {
@@ -249,6 +254,17 @@ func c11Payload(t *rapid.T) {
 			t.Fatalf("EncodeDump: %v", err)
 		}
 		origin = "EncodeDump"
+		// a payload stays what it was while its holder keeps it: later encodings must not write into it
+		snap := append([]byte{}, payload...)
+		for i := 0; i < 3; i++ {
+			if _, err := rdb.EncodeDump(toObj(gen.DrawValue(t, "", 12))); err != nil {
+				t.Fatalf("EncodeDump: %v", err)
+			}
+		}
+		if !bytes.Equal(payload, snap) {
+			violation(t, "C11", "payload-overwritten:EncodeDump", "a payload returned by EncodeDump (%d bytes) changed after later EncodeDump calls (first difference at %d): its trailer no longer covers its bytes", len(snap), firstDiff(payload, snap))
+			return
+		}
 	}
 	dOK, cOK, derr, cerr := checkersAccept(payload)
 	if !dOK && !isChecksumError(derr) {
